@@ -15,7 +15,7 @@ commits. Property theorems only; lemmas in Gsu/Proofs/Db.lean and Gsu/Proofs/DbI
 global invariant `DbInv`, kept by every `Op` of `step`; `no_loss_no_dup` is its corollary for all
 histories; hypotheses `OpsOK` as in C06).
 -/
-import Gsu.Proofs.DbInv9
+import Gsu.Proofs.DbInv10
 import Gsu.Gen.Dbphys
 namespace Gsu.Props.C16
 open Gsu.Db
@@ -126,9 +126,18 @@ theorem pending_result_current (ops : List Op) (hok : OpsOK State.init ops) :
     PendInv (run State.init ops).mt (run State.init ops).pend :=
   (dbinv_reachable ops hok).pend
 
+/-- persist loses nothing: in every reachable state, a table with nothing unsaved (every layer of
+every index empty, all deltas zero — the state after merging everything and persisting) is read
+back by a reopen (`Info.disk`: btrees + one empty layer, counts from the btrees) with every index
+still holding exactly the committed rows and the exact row count -/
+theorem reopen_reads_committed (ops : List Op) (hok : OpsOK State.init ops) (j : Nat) (ti : Info)
+    (hj : (run State.init ops).mt[j]? = some ti) (hc : ti.clean = true) :
+    IAgree ti.disk ∧ ti.disk.rows = ti.rows ∧ ti.disk.nrows = ti.rows.length :=
+  reopen_reachable ops hok j ti hj hc
+
 /-- statistics over whole histories: with fresh record offsets (append-only store) `size` is the
 sum of the committed rows' sizes and `nrows` their number, in every reachable state -/
-theorem stats_exact (ops : List Op) (hok : OpsOK State.init ops) (hfr : (newOffs ops).Nodup)
+theorem stats_exact (ops : List Op) (hok : OpsOK State.init ops) (hfr : (okOffs State.init ops).Nodup)
     (j : Nat) (ti : Info) (hj : (run State.init ops).mt[j]? = some ti) :
     ti.nrows = ti.rows.length ∧ ti.size = rowsSize ti.rows :=
   info_exact_reachable ops hok hfr j ti hj
@@ -179,5 +188,11 @@ example : (match (run State.init (hist.take 14)).pend with | .persist [(0, _)] =
     (step (run State.init (hist.take 13)) (.commit 2)).2 = "ok" := by decide
 example : ((run State.init hist).mt.map fun ti => (ti.rows.map (·.off), ti.nrows, ti.deltas.length,
     ti.idx.map (·.layers.length))) = [([40, 50], 2, 4, [4, 4, 4])] := by decide
+
+-- non-vacuity of `reopen_reads_committed`: a history that ends merged and persisted is clean
+example : ((run State.init [.table 2,
+    .begin_ 0, .out 0 0 ⟨20, 5, [[1], [7]]⟩, .out 0 0 ⟨30, 6, [[2], [8]]⟩, .commit 0,
+    .begin_ 1, .del 1 0 20, .mergeC 0 1, .commit 1, .mergeA, .mergeC 0 1, .mergeA, .persistC, .persistA]).mt.map
+      fun ti => (ti.clean, ti.rows.map (·.off), ti.btNrows)) = [(true, [30], 1)] := by decide
 
 end Gsu.Props.C16
